@@ -1,10 +1,10 @@
 (* C11 — ids: the ids of one accepted source (AST and pickles) are pairwise distinct and all drawn during its
    processing; pickle ids are consecutive from the counter, references resolve, the counter of a stream never goes
-   back.  (That the AST numbering is dense and in the canonical order: by correspondence and by the generator's
-   independent numbering; DESIGN 6.C11.) *)
+   back; the AST ids of an accepted document are dense and in the canonical order (C11_dense, C11_canonical). *)
+From Coq Require Import String.
 From Coq Require Import List Bool Arith.
 Import ListNotations.
-Require Import Kinds PyStr Line Matcher Ast Builder Compiler CompilerSpec Pipeline PipelineFacts Stream StreamFacts AstIds.
+Require Import Kinds PyStr Line Matcher Ast Builder Compiler CompilerSpec Pipeline PipelineFacts Stream StreamFacts AstIds DenseMain.
 
 (* pickle steps before their pickle, consecutively, no gaps, from the counter's value *)
 Theorem C11_compile_ids : forall uri d idc ps i, compile uri d idc = Some (ps, i) ->
@@ -49,3 +49,49 @@ Theorem C11_distinct : forall stop m b src d m1 b1 n uri ps i,
   NoDup (doc_ids d ++ flat_map pickle_ids ps) /\ Forall (fun x => b_idc b <= x < i) (doc_ids d ++ flat_map pickle_ids ps).
 Proof. exact source_ids_distinct. Qed.
 Print Assumptions C11_distinct.
+
+(* density and canonical order: reading the AST of an accepted document in the order
+   "children before their parent; table rows, then steps, then examples, then tags, then the owning node"
+   (AstIds.doc_ids) gives exactly the ids the generator handed out during the parse, in the order it handed them out *)
+Theorem C11_dense : forall stop m b src d m1 b1 n, parse_source stop m b src = POk d m1 b1 n ->
+  b_idc b <= b_idc b1 /\ doc_ids d = seq (b_idc b) (b_idc b1 - b_idc b).
+Proof. exact ast_ids_dense. Qed.
+Print Assumptions C11_dense.
+
+(* ... followed by the pickle ids (steps before their pickle): one gap-free run from the counter's value *)
+Theorem C11_canonical : forall stop m b src d m1 b1 n uri ps i,
+  parse_source stop m b src = POk d m1 b1 n -> compile uri d (b_idc b1) = Some (ps, i) ->
+  doc_ids d ++ flat_map pickle_ids ps = seq (b_idc b) (i - b_idc b).
+Proof. exact source_ids_dense. Qed.
+Print Assumptions C11_canonical.
+
+(* non-vacuity: a document with tags, a background, an outline with a table and examples is accepted, and numbered 0..19 *)
+Definition c11_sample : str := s2l
+  "@a @b
+Feature: f
+  Background:
+    Given g
+      | x | y |
+      | 1 | 2 |
+  @c
+  Scenario Outline: s
+    When <x>
+    Examples:
+      | x |
+      | 1 |
+      | 2 |
+  Rule: r
+    @d
+    Scenario: t
+      Then z
+".
+Example C11_dense_sample :
+  match new_matcher Dialects.dialects (s2l "en") with
+  | Some m =>
+    match parse_source false m (new_builder 7) c11_sample with
+    | POk d _ b1 _ => doc_ids d = seq 7 (b_idc b1 - 7) /\ (7 + 10 <=? b_idc b1) = true
+    | _ => False
+    end
+  | None => False
+  end.
+Proof. vm_compute. split; reflexivity. Qed.
